@@ -150,6 +150,7 @@ type storeRun struct {
 	kb     KeyBuf
 	obs    []stepJ
 	plain  bool // control run: fresh key slices, no scrambling
+	live   bool // the real janitor goroutine is running: Walk and Len are not taken at the same instant
 }
 
 func (r *storeRun) project(stepIdx int) ([]entJ, string) {
@@ -186,7 +187,7 @@ func (r *storeRun) project(stepIdx int) ([]entJ, string) {
 		prob = fmt.Sprintf("Walk returned count %d but visited %d entries", n, len(got))
 	}
 
-	if l := r.be.Len(); l != len(got) && prob == "" {
+	if l := r.be.Len(); !r.live && l != len(got) && prob == "" {
 		prob = fmt.Sprintf("Len() = %d but Walk visited %d entries", l, len(got))
 	}
 
@@ -730,14 +731,14 @@ func TestJanitorLoop(t *testing.T) {
 		stat := NewStatRec()
 		cc := cache.Config{Name: "store", Stats: stat, TimeToLive: TickDur(2, u), ExpirationJitter: -1,
 			DeleteExpiredAfter: 2 * u, DeleteExpiredJobInterval: 2 * time.Millisecond,
-			ItemsCountReportInterval: 100000 * time.Hour,
+			ItemsCountReportInterval: 2 * time.Millisecond, // the cache_items gauge is reported by its own goroutine
 			EvictionNeeded:           func() bool { atomic.AddInt64(&cycles, 1); return false }}
 		if unlimited {
 			cc.TimeToLive = cache.UnlimitedTTL
 		}
 
 		cfg := StoreCfg{Keys: models, Strategy: "expired"}
-		r := &storeRun{cfg: cfg, km: km, u: u, stat: stat, t0: time.Now()}
+		r := &storeRun{cfg: cfg, km: km, u: u, stat: stat, t0: time.Now(), live: true}
 		r.be = NewBackend(kind, cc)
 
 		var steps []stepJ
@@ -768,8 +769,19 @@ func TestJanitorLoop(t *testing.T) {
 					time.Sleep(200 * time.Microsecond)
 				}
 
-				if atomic.LoadInt64(&cycles) < c0+2 {
-					stuck++ // the janitor did not run two cycles in 2 s: the step is recorded as what it is, a non-event
+				_, g0 := stat.Gauge(cache.MetricItems, "store")
+				for time.Now().Before(deadline) {
+					if _, g := stat.Gauge(cache.MetricItems, "store"); g >= g0+2 {
+						break
+					}
+
+					time.Sleep(200 * time.Microsecond)
+				}
+
+				_, g1 := stat.Gauge(cache.MetricItems, "store")
+
+				if atomic.LoadInt64(&cycles) < c0+2 || g1 < g0+2 {
+					stuck++ // janitor / items reporter did not run twice in 2 s: recorded as what it is, a non-event
 
 					continue
 				}
@@ -784,7 +796,16 @@ func TestJanitorLoop(t *testing.T) {
 				got = repJ{R: "error:" + prob}
 			}
 
-			steps = append(steps, stepJ{Op: st.Op, Reply: got, Now: 0, St: ents, Met: r.metrics()})
+			sj := stepJ{Op: st.Op, Reply: got, Now: 0, St: ents, Met: r.metrics()}
+			if st.Op.Name == "Cleanup" {
+				// cache_items as last reported (two reports have happened since the janitor finished its cycles)
+				items, _ := stat.Gauge(cache.MetricItems, "store")
+				sj.Met["items"] = items
+			} else {
+				sj.Met["items"] = -1
+			}
+
+			steps = append(steps, sj)
 		}
 
 		_ = enc.Encode(map[string]interface{}{"b": bi, "kind": kind, "unlimited": unlimited, "steps": steps})
